@@ -27,6 +27,12 @@ def BS : Byte := 92   -- \
     function on every one-character string -/
 def safeByte (c : Byte) : Bool := Params.hushSafe.contains c.toNat
 
+/-- bytes hush's `parse_stream` copies unchanged when they stand unquoted: hand-written (ASCII
+    letters, digits, `% + , - . / : = @ _` — none is in hush's `map` of special characters),
+    deliberately INDEPENDENT of the regenerated `Params.hushSafe`, so that an edit to
+    `_hush_quote`'s safe class is judged by the tokenizer and not absorbed by it -/
+def plainByte (c : Byte) : Bool := Quote.posixPlain c.toNat
+
 /-- bytes the theorem ranges over: printable ASCII (0x20–0x7E) and everything >= 0x80 -/
 def printable (c : Byte) : Bool := 32 ≤ c && c != 127
 
@@ -112,7 +118,7 @@ def split : HS → Option Bytes → List Bytes → Bytes → Option (List Bytes)
     else if c == SQ then split .S (some (w.getD [])) acc cs
     else if c == DQ then split .D (some (w.getD [])) acc cs
     else if c == BS then split .E (some (w.getD [] ++ [BS])) acc cs   -- copied, removed by `unbs`
-    else if safeByte c then split .U (some (w.getD [] ++ [c])) acc cs
+    else if plainByte c then split .U (some (w.getD [] ++ [c])) acc cs
     else none                                   -- `$ ; & | #` and every other unquoted byte
   | .E, w, acc, c :: cs =>
     if !printable c then none else split .U (some (w.getD [] ++ [c])) acc cs
@@ -122,7 +128,7 @@ def split : HS → Option Bytes → List Bytes → Bytes → Option (List Bytes)
     else split .S (some (w.getD [] ++ [c])) acc cs
   | .D, w, acc, c :: cs =>
     if c == DQ then split .U w acc cs
-    else if safeByte c then split .D (some (w.getD [] ++ [c])) acc cs
+    else if plainByte c then split .D (some (w.getD [] ++ [c])) acc cs
     else none                                   -- `$`, `\`, `'` (!) are live inside double quotes
 
 /-- the argument vector hush derives from a command line, or `none` on any hazard -/
@@ -141,7 +147,7 @@ def wordAux : HS → Bytes → Bytes → Option (Bytes × Option Bytes)
     else if c == SQ then wordAux .S w cs
     else if c == DQ then wordAux .D w cs
     else if c == BS then wordAux .E (w ++ [BS]) cs
-    else if safeByte c then wordAux .U (w ++ [c]) cs
+    else if plainByte c then wordAux .U (w ++ [c]) cs
     else none
   | .E, w, c :: cs =>
     if !printable c then none else wordAux .U (w ++ [c]) cs
@@ -151,7 +157,7 @@ def wordAux : HS → Bytes → Bytes → Option (Bytes × Option Bytes)
     else wordAux .S (w ++ [c]) cs
   | .D, w, c :: cs =>
     if c == DQ then wordAux .U w cs
-    else if safeByte c then wordAux .D (w ++ [c]) cs
+    else if plainByte c then wordAux .D (w ++ [c]) cs
     else none
 
 def firstWord : Bytes → Option (Bytes × Option Bytes)
